@@ -10,6 +10,6 @@ package badmetrics
 //@
 //@ func (b *BadMetrics) Add(metric []byte, msg []byte, err error)
 //@   property C02
-//@   requires b.In != nil && err != nil
+//@   requires b.In != nil && !closed(b.In) && err != nil
 //@   modifies sent(b.In)
 //@   ensures[reported] exists t elem :: sent(b.In) == old(sent(b.In)) ++ recordElem(metric[..], msg[..], errMsg(err.ref), t)
